@@ -49,6 +49,9 @@ func (s *SnapStore) Store(ns string) storage.Interface {
 	return &snapIface{s: s, ns: ns, in: s.BoltStore.Store(ns)}
 }
 
+// Versions goes through the observed "versions" namespace as well.
+func (s *SnapStore) Versions() storage.Versions { return storage.NewVersions(s.Store("versions")) }
+
 // Snapshot writes a consistent copy of the Bolt file to path.
 func (s *SnapStore) Snapshot(path string) error {
 	return s.DB.View(func(tx *bolt.Tx) error { return tx.CopyFile(path, 0o600) })
